@@ -159,6 +159,12 @@ def run_sessions(sessions):
             for step in sess["steps"]:
                 arr_t, val = make_value(step)
                 b, ann = build(step.get("cat", "Float"), arr_t, step["dim"])
+                if b == "ok" and step.get("outer") is not None:
+                    # a NESTED annotation: Shaped[<the annotation>, outer]  (== (category)[array, outer + " " + dims])
+                    try:
+                        ann = jaxtyping.Shaped[ann, step["outer"]]
+                    except ValueError:
+                        b = "ValueError"
                 if b != "ok":
                     res.append({"build": b}); continue
                 before = copy.deepcopy([dict(m) for m in get_shape_memo()[:3]])
@@ -197,6 +203,34 @@ def main():
             for s in req["specs"]:
                 b, ann = build("Float", np.ndarray, decode_spec(s))
                 res.append({"build": b, "dims": canon_dims(ann) if ann is not None else None})
+        elif req["mode"] == "check_dims":
+            # the FUNCTION _check_dims itself on explicit inputs: for the correspondence with the interpretation (model/PyL.v) of
+            # the term generated from its source
+            import numpy as np
+            from jaxtyping import _array_types as at, _storage as stg, AnnotationError
+            rows = []
+            for c in req["cases"]:
+                b, ann = build("Float", np.ndarray, c["dim"])
+                if b != "ok":
+                    rows.append({"out": b}); continue
+                dims = list(ann.dims)
+                single, args = dict(c["single"]), dict(c["args"])
+                args["boom"] = boom
+                stg._treepath_storage.value = c.get("label")
+                try:
+                    r = at._check_dims(dims, tuple(c["shape"]), single, args)
+                    o = "ret:" + ("" if r == "" else "msg")
+                except AnnotationError:
+                    o = "raise:AnnotationError"
+                except Exception:
+                    o = "raise:Exception"
+                except BaseException:
+                    o = "raise:BaseException"
+                finally:
+                    stg._treepath_storage.value = None
+                rows.append({"out": o + " {" + ",".join("%s=%d" % kv for kv in single.items()) + "}", "syms": sym_sources(ann),
+                             "variadic": ann.index_variadic is not None, "rank": len(dims)})
+            res = {"rows": rows}
         elif req["mode"] == "sessions":
             REUSE[0] = bool(req.get("reuse"))
             cats = sorted({st.get("cat", "Float") for se in req["sessions"] for st in se["steps"]})
